@@ -164,24 +164,38 @@ func (w *ErrWriter) Err() error {
 // NoEmptyReads wraps r so that a Read returning (0, nil) is retried. io.Reader
 // permits such a read and asks callers to treat it as "nothing happened", but
 // the IPLD stream decoders mistake it for a zero byte.
-func NoEmptyReads(r io.Reader) io.Reader {
-	return noEmptyReads{r: r}
+//
+// The wrapper also remembers the first failure of r other than io.EOF: a stream
+// decoder drops an error that arrives together with data (io.ReadAtLeast does),
+// so the caller must consult Err once decoding is done.
+func NoEmptyReads(r io.Reader) *StreamReader {
+	return &StreamReader{r: r}
 }
 
-type noEmptyReads struct {
-	r io.Reader
+// StreamReader is the reader returned by NoEmptyReads.
+type StreamReader struct {
+	r   io.Reader
+	err error
 }
 
 // Read implements io.Reader.
-func (n noEmptyReads) Read(p []byte) (int, error) {
+func (n *StreamReader) Read(p []byte) (int, error) {
 	if len(p) == 0 {
 		return n.r.Read(p)
 	}
 	for i := 0; i < 100; i++ {
 		k, err := n.r.Read(p)
+		if err != nil && err != io.EOF && n.err == nil {
+			n.err = err
+		}
 		if k > 0 || err != nil {
 			return k, err
 		}
 	}
 	return 0, io.ErrNoProgress
+}
+
+// Err returns the first error other than io.EOF that the underlying reader reported.
+func (n *StreamReader) Err() error {
+	return n.err
 }
